@@ -398,7 +398,7 @@ PROPS = {
     "C07": {
         "parts": [
             {"engine": "clonersim", "cfgs": ["", "nowire"], "share": 1, "chunk": 3000},
-            {"engine": "sysim", "cfgs": ["", "", "sequential"], "share": 2, "chunk": 300},
+            {"engine": "sysim", "cfgs": ["", "servers", "sequential", "servers"], "share": 2, "chunk": 300},
         ],
         "det_trace": False,
         "quick": {"seconds": 30, "chunk": 3000, "runs": 200000},
